@@ -900,18 +900,20 @@ class _SerialPool:
         return [func(*args) for args in it]
 
 
-def files_cases(rnd: random.Random, nrand: int, M: int):
+def files_cases(rnd: random.Random, nrand: int, M: int, thin: int = 1):
     """(max_passes, folders[[ (fid, init) ]], tables[fid])"""
     cases = []
     # exhaustive: 2 folders, 1+1 or 2+1 files, contents in 3 states, tables 3->3 (sampled by index)
     tabs3 = list(itertools.product(range(3), repeat=3))
     for mp in (0, 1, 2, M):
         for k, (t0, t1) in enumerate(itertools.product(tabs3, repeat=2)):
-            if mp in (0, 2) and k % 4:
+            if (mp in (0, 2) and k % (4 * thin)) or (k + mp) % thin:
                 continue
             cases.append((mp, [[(0, 0)], [(1, 0)]], [list(t0), list(t1)]))
     for mp in (1, M):
         for i, (t0, t1, t2) in enumerate(itertools.product(tabs3[::2], tabs3[::3], tabs3[1::4])):
+            if (i + mp) % (2 * thin):
+                continue
             cases.append((mp, [[(0, 0), (1, 1)], [(2, 0)]], [list(t0), list(t1), list(t2)]))
     # chains longer than the budget
     for L in (M - 1, M, M + 1, M + 3):
@@ -1001,6 +1003,53 @@ def files_case_to_coq(case, obs) -> str:
     fl = glist([glist([f"({gn(a)}, {gn(b)})" for a, b in f]) for f in folders])
     return (f"(mkFilesCase {gn(mp)} {fl} {glist(tbs, gnl)} {glist([f'({gn(a)}, {gn(b)})' for a, b in obs['final']])} "
             f"{glist(obs['passes'], gnl)} {gbool(obs['result'])})")
+
+
+ORIENT_BRANCHES = [
+    ["pass"], ["pass", "pass"], ["x = 1"], ["x = 1", "y = 2"], ["x = 1"] * 4, ["x = 1"] * 5, ["return 1"], ["continue"], ["break"],
+    ["x = 1", "return x"], ["x = 1"] * 3 + ["return x"], ["x = 1"] * 7 + ["return x"], ["print(x)", "continue"],
+    ["if c:\n    return 1", "return 2"], ["if c:\n    return 1", "if d:\n    return 3", "return 2"],
+    ["if c:\n    x = 1"], ["if c:\n    x = 1\nelse:\n    x = 2", "y = x", "z = y", "w = z"], ["raise ValueError(x)"],
+    ["x = 1", "raise ValueError(x)"], ["return 1", "x = 1"], ["return 1", "if c:\n    x = 1", "y = 2", "z = 3"],
+    ["pass", "return 1"], ["for i in r:\n    if i:\n        return i", "return 0"], ["x = 1", "y = 2", "z = 3", "break"],
+]
+
+
+def orientation_cases(mods):
+    """all ordered pairs of the branch vocabulary: the real fixes._orelse_preferred_as_body against
+    DriverModel.orelse_preferred on the branch summaries (summaries computed with the real
+    core.is_blocking / fixes._count_branches, which belong to other kernels)"""
+    import ast as _ast
+    core, fixes = mods["core"], mods["fixes"]
+
+    def nodes(stmts):
+        src = "for r in rs:\n  def f():\n" + "".join(_textwrap.indent(s, "    ") + "\n" for s in stmts)
+        # statements are parsed inside a loop inside a function so that return/continue/break are legal
+        src = "def outer(rs, c, d, x):\n  for r in rs:\n" + "".join(_textwrap.indent(s, "    ") + "\n" for s in stmts)
+        return _ast.parse(src).body[0].body[0].body
+
+    def summary(b):
+        return {"all_pass": all(isinstance(n, _ast.Pass) for n in b), "blocking": any(core.is_blocking(n) for n in b),
+                "branches": fixes._count_branches(b), "len": len(b),
+                "first_exit": isinstance(b[0], (_ast.Return, _ast.Continue, _ast.Break))}
+    parsed = [nodes(st) for st in ORIENT_BRANCHES]
+    sums = [summary(b) for b in parsed]
+    items = []
+    for i, b in enumerate(parsed):
+        for j, o in enumerate(parsed):
+            try:
+                got = bool(fixes._orelse_preferred_as_body(b, o))
+            except Exception as e:  # noqa
+                got = None
+            items.append({"body": ORIENT_BRANCHES[i], "orelse": ORIENT_BRANCHES[j], "sb": sums[i], "so": sums[j], "impl": got})
+    return items
+
+
+def orient_case_to_coq(it) -> str:
+    def br(s):
+        return (f"(mkBranch {gbool(s['all_pass'])} {gbool(s['blocking'])} {gn(s['branches'])} {gn(s['len'])} "
+                f"{gbool(s['first_exit'])})")
+    return f"(mkOrient {br(it['sb'])} {br(it['so'])} {gbool(bool(it['impl']))})"
 
 
 def guard_cases(mods, tier: str, only_all_valid: bool = False, n: int = 3):
